@@ -32,7 +32,7 @@ RULE = ("one run = (platform {Ledger, SGX}, command {onboard, unlock, changepin,
         "--noexec}); enumerated: the full product of the enum dimensions; seeded: PIN strings and "
         "entropy; non-trivial = at least one APDU reached the device; distinct = the scenario tuple")
 MUTANT_WALL = 150
-TIERS = {"quick": {"runs": 20000, "wall": 240}, "thorough": {"runs": 400000, "wall": 3000}}
+TIERS = {"quick": {"runs": 40000, "wall": 240}, "thorough": {"runs": 400000, "wall": 3000}}
 EXHAUSTIVE = {"quick": True, "thorough": True}
 COMPONENTS = {
     "real": ["adm_ledger.main / adm_sgx.main (argument parsing, dispatch, exit status)",
@@ -86,15 +86,22 @@ def run_one(ch, cfg):
     answers = ANSWERS[ch.draw(len(ANSWERS), "answers")]
     any_pin = ch.draw(2, "anypin") == 1
     flag2 = ch.draw(2, "nounlock/noexec") == 1
-    devpin = b"Dev1cePin"[:8]
-    seed = ch.bytes(6, "devseed")
-    log, clock = EventLog(), Clock()
     # device fault (seeded runs only, after the enumerated dimensions): the onboarded query itself
     # fails with an error status; nothing can then be concluded about the device, so nothing that
     # presupposes "not onboarded" / "onboarded" may be sent (carrying out is not demanded either)
     onb_err = None
     if ch.draw(8, "onboarded-query-fails") == 1:
         onb_err = ch.pick([0x6E00, 0x6F01, 0x6985, 0x6A99, 0x6D00], "onboarded-query.status")
+    # link fault (seeded runs, Ledger): one run in four starts from a healthy scenario of its command
+    # (so that the exchanges worth faulting exist) and loses one answer / fails one exchange
+    lf = ch.draw(4, "link-fault") == 1
+    link_fault_run = platform == "ledger" and not onb_err and lf
+    if link_fault_run:
+        mode, echo_ok, onboarded = "bootloader", True, command != "onboard"
+        pinkind, answers, any_pin, flag2, bad_attempts = "valid", ["yes"], False, False, 0
+    devpin = b"Dev1cePin"[:8]
+    seed = ch.bytes(6, "devseed")
+    log, clock = EventLog(), Clock()
     if platform == "sgx" and mode in ("ui-heartbeat", "foreign"):
         mode = "signer"
     if platform == "ledger":
@@ -170,7 +177,31 @@ def run_one(ch, cfg):
     op.stdin_script = [(a, None) for a in answers] + [("", replug)]
     start = {"onboarded": dev.onboarded, "pin": dev.pin, "mode": dev.mode,
              "locked": getattr(dev, "locked", None)}
+    # link fault (seeded runs, Ledger): the answer to one exchange is lost after the device acted, or
+    # the exchange fails - whatever the tool does next must still respect the preconditions as they
+    # are *then* (a device that has just been onboarded is onboarded)
+    lfault = {}
+    if link_fault_run:
+        # addressed by instruction (the n-th exchange of one kind): wipe, seed word, PIN byte, unlock,
+        # PIN change, onboarded query, echo, mode query, exit
+        ins = ch.pick({"onboard": [0x07, 0x07, 0x44, 0x41, 0x06], "changepin": [0x08, 0x08, 0x41, 0xFE],
+                       "unlock": [0xFE, 0x41, 0x06, 0x02]}.get(command, [0xFE, 0x04, 0x43, 0xFF]),
+                      "link-fault.ins")
+        nth = ch.pick([0, 0, 1, 8, 31], "link-fault.nth")
+        lkind = ch.pick(["timeout_after", "read_err_after", "timeout_before", "write_err"], "link-fault.kind")
+        seen_ins = {"n": 0}
+
+        def lfn(i, apdu):
+            if len(apdu) > 1 and apdu[0] == 0x80 and apdu[1] == ins and "fired" not in lfault:
+                seen_ins["n"] += 1
+                if seen_ins["n"] - 1 == nth:
+                    lfault["fired"] = lkind
+                    return lkind
+            return None
+        w.link.fault_fn = lfn
     status, out = w.run_tool(main, argv)
+    if platform == "ledger":
+        w.link.fault_fn = None
     w.entropy_on = False
     viol = []
     desc = "%s %s | device: mode=%s onboarded=%s echo_ok=%s | operator: pin=%r via=%s anypin=%s " \
@@ -195,6 +226,15 @@ def run_one(ch, cfg):
         # PIN bytes may only follow a legitimate onboarding (the later unlock belongs to it)
         if any(c[2][0] == 0x80 and c[2][1] == 0x41 for c in ctx):
             viol.append(("onboard/pin-sent-without-preconditions", desc))
+    # ---- V1b: per APDU - nothing of an onboarding reaches a device that is onboarded at that moment
+    for m, onb, apdu in ctx:
+        if apdu[0] == 0x80 and apdu[1] in (0x44, 0x07, 0xA0) and onb:
+            viol.append(("onboard/to-onboarded-device", desc + " (APDU %02x while the device is onboarded%s)"
+                         % (apdu[1], ", link fault %s" % lfault["fired"] if lfault.get("fired") else "")))
+            break
+    seeds = [hs for hs, _ in dev.seeds_received]
+    if len(set(seeds)) != len(seeds):
+        viol.append(("onboard/seed-reused", desc + " the same seed was sent for %d onboardings" % len(seeds)))
     # ---- V2: a fresh 32-byte random seed
     for hs, count in dev.seeds_received:
         if count != 32 or len(hs) != 32:
@@ -231,7 +271,7 @@ def run_one(ch, cfg):
             viol.append(("pin/policy", desc + " sent %s PIN %r" % (kind, p)))
     # ---- V5: when the preconditions hold the operation is carried out
     good_pin = pin is not None and pin_policy_ok(pin.encode())
-    if onb_err:
+    if onb_err or lfault.get("fired"):
         good_pin = False
         pinkind = pinkind if pinkind != "valid" else "valid-but-undeterminable"
     if command == "onboard" and pre and good_pin:
@@ -259,6 +299,8 @@ def run_one(ch, cfg):
             want = {p: dev.pubkey_for(path_binary(p)).hex() for p in ORDERED_PATHS}
             if doc != want:
                 viol.append(("pubkeys/content", desc + " file %r" % (doc,)))
+        elif lfault.get("fired"):
+            pass
         elif reached_signer and onboarded and (pinkind == "valid" or flag2 or mode == "signer"):
             if mode == "signer" and not flag2:
                 pass       # unlock refuses an already unlocked device: the tool stops (by design)
@@ -267,7 +309,8 @@ def run_one(ch, cfg):
     st = (platform, command, mode, onboarded, echo_ok, pinkind, via_prompt, bad_attempts,
           tuple(answers), any_pin, flag2)
     return {"violations": viol, "digest": w.log.digest(), "state": st,
-            "nontrivial": len(ctx) > 0, "faults": {},
+            "nontrivial": len(ctx) > 0,
+            "faults": dict(w.link.stats.faults) if platform == "ledger" else {},
             "probes": {"status.%s" % status: 1, "cmd." + command: 1,
                        "onboarded_now": int(dev.onboarded and not onboarded),
                        "pin_changed": int(dev.pin != start["pin"])},
@@ -279,13 +322,16 @@ def run_one(ch, cfg):
 
 
 ENUM_LABELS = ["platform", "command", "mode", "not-onboarded", "echo-bad", "pin-kind", "pin-via-prompt",
-               "invalid-attempts-first", "answers", "anypin", "nounlock/noexec"]
+               "invalid-attempts-first", "answers", "anypin", "nounlock/noexec", "onboarded-query-fails",
+               "link-fault"]
 
 
 class _Enum:
     def __init__(self, tier):
         import itertools
-        self.items = [list(c) for c in itertools.product(*DIMS)]
+        # the two trailing zeros switch the seeded-only dimensions off (failing onboarded query, link
+        # fault): an enumerated case is exactly the listed scenario
+        self.items = [list(c) + [0, 0] for c in itertools.product(*DIMS)]
 
     def __len__(self):
         return len(self.items)
